@@ -178,6 +178,68 @@ fn late_programs() -> Vec<(String, String)> {
     out
 }
 
+/// The same late-resolved values as `late_programs`, but the missing part of the type is supplied by
+/// every OTHER kind of later context: the annotation of the `let`, a later call that takes the value
+/// as an argument, the declared result type of the enclosing function, the other branch of a later
+/// `if`, a later `match` arm. (In `late_programs` it is a second element of an array literal.)
+/// Hover-only texts: identifiers and the initialiser expressions themselves.
+fn late_fixed_programs() -> Vec<(String, String)> {
+    // (name, wrap, type of the wrapped value given the element type)
+    let wrappers: [(&str, &str, &str); 9] = [
+        ("ref", "ref({})", "Ref[{}]"),
+        ("vec", "vec_push(vec_new(), {})", "Vec[{}]"),
+        ("array", "[{}]", "[{}; 1]"),
+        ("array2", "[{}, {}]", "[{}; 2]"),
+        ("tuple", "({}, true)", "({}, bool)"),
+        ("fn", "|u: unit| {}", "(unit) -> {}"),
+        ("app-enum", "Som({})", "Opt[{}]"),
+        ("app-struct", "Bx { v: {} }", "Bx[{}]"),
+        ("tuple-left", "(\"s\", {})", "(string, {})"),
+    ];
+    // (name, late expression, same-typed expression whose type is known at once, the type)
+    let sources: [(&str, &str, &str, &str); 7] = [
+        ("generic-call", "idg(1)", "2", "int32"),
+        ("field", "p.x", "2", "int32"),
+        ("nullary-ctor", "Non", "Som(2)", "Opt[int32]"),
+        ("empty-vec", "vec_new()", "vec_push(vec_new(), 2)", "Vec[int32]"),
+        ("closure-result", "f(3)", "2", "int32"),
+        ("fn-call", "next(1)", "2", "int32"),
+        ("method-call", "p.getx()", "2", "int32"),
+    ];
+    let prelude = "enum Opt[T] { Non, Som(T) }\nstruct Pt { x: int32, y: bool }\nimpl Pt { fn getx(self: Pt) -> int32 { self.x } }\nstruct Bx[T] { v: T }\nfn idg[T](a: T) -> T { a }\nfn next(n: int32) -> int32 { n + 1 }\n";
+    let fill = |w: &str, e: &str| w.replace("{}", e);
+    let mut out = Vec::new();
+    for (wn, w, wt) in wrappers.iter() {
+        for (sn, e, fx, et) in sources.iter() {
+            let (late, fixed, ty) = (fill(w, e), fill(w, fx), fill(wt, et));
+            let head = "    let p = Pt { x: 1, y: true };\n    let f = |q| q + 1;\n";
+            let bodies: [(&str, String, String); 5] = [
+                ("annotation", String::new(), format!("{}    let r: {} = {};\n    let again = r;\n    ()\n", head, ty, late)),
+                (
+                    "later-argument",
+                    format!("fn eat(a: {}) -> unit {{ () }}\n", ty),
+                    format!("{}    let r = {};\n    let again = r;\n    let _ = eat(again);\n    ()\n", head, late),
+                ),
+                (
+                    "result-type",
+                    format!("fn mk(p: Pt, f: (int32) -> int32) -> {} {{\n    let r = {};\n    let again = r;\n    again\n}}\n", ty, late),
+                    format!("{}    let made = mk(p, f);\n    ()\n", head),
+                ),
+                ("later-branch", String::new(), format!("{}    let r = {};\n    let k = if p.y {{ r }} else {{ {} }};\n    ()\n", head, late, fixed)),
+                (
+                    "later-match-arm",
+                    String::new(),
+                    format!("{}    let r = {};\n    let k = match p.y {{\n        true => r,\n        false => {},\n    }};\n    ()\n", head, late, fixed),
+                ),
+            ];
+            for (fname, extra, body) in bodies.iter() {
+                out.push((format!("latefix:{}:{}:{}", wn, sn, fname), format!("{}{}\nfn main() {{\n{}}}\n", prelude, extra, body)));
+            }
+        }
+    }
+    out
+}
+
 fn token_bounds(src: &str) -> Vec<(usize, usize, lexer::TokenKind)> {
     lexer::lex(src).iter().map(|t| (u32::from(t.range.start()) as usize, u32::from(t.range.end()) as usize, t.kind)).collect()
 }
@@ -587,6 +649,33 @@ fn collect_tast(file: &tast::File) -> Vec<(u32, u32, &'static str, String)> {
             _ => {}
         }
     }
+    /// the initialiser `e` of a `let` and the sub-expressions reached from it through forms whose TAST
+    /// children are the CST children one to one (call / constructor arguments, tuple and array items,
+    /// operands); entry = "<path>\u{1}<type>", path = steps `<tag><index>` resolved by `expr_node_for`
+    fn sub_exprs(e: &tast::Expr, path: String, depth: usize, at: (u32, u32), out: &mut Vec<(u32, u32, &'static str, String)>) {
+        use tast::Expr::*;
+        let e: &tast::Expr = match e {
+            EToDyn { expr: inner, .. } => inner,
+            v => v,
+        };
+        out.push((at.0, at.1, "let-value", format!("{}\u{1}{}", path, e.get_ty().to_pretty(80))));
+        if depth >= 4 {
+            return;
+        }
+        let (tag, kids): (char, Vec<&tast::Expr>) = match e {
+            ECall { func, args, .. } if matches!(&**func, EVar { .. }) => ('c', args.iter().collect()),
+            EConstr { args, .. } => ('c', args.iter().collect()),
+            ETuple { items, .. } => ('t', items.iter().collect()),
+            EArray { items, .. } => ('a', items.iter().collect()),
+            EBinary { lhs, rhs, .. } => ('b', vec![&**lhs, &**rhs]),
+            EUnary { expr, .. } => ('u', vec![&**expr]),
+            _ => return,
+        };
+        let n = kids.len();
+        for (i, k) in kids.into_iter().enumerate() {
+            sub_exprs(k, format!("{}/{}{}.{}", path, tag, i, n), depth + 1, at, out);
+        }
+    }
     fn expr(e: &tast::Expr, out: &mut Vec<(u32, u32, &'static str, String)>) {
         use tast::Expr::*;
         match e {
@@ -608,10 +697,20 @@ fn collect_tast(file: &tast::File) -> Vec<(u32, u32, &'static str, String)> {
             }
             ELet { pat: p, value, .. } => {
                 pat(p, out);
+                // the initialiser of a `let` with a variable binder: the TAST has no pointer for most
+                // expression kinds, but the binder has one, and the initialiser is its sibling in the CST
+                if let tast::Pat::PVar { astptr: Some(ptr), .. } = p {
+                    let r = ptr.text_range();
+                    sub_exprs(value, String::new(), 0, (r.start().into(), r.end().into()), out);
+                }
                 expr(value, out)
             }
             EBlock { exprs, .. } => exprs.iter().for_each(|a| expr(a, out)),
-            EMatch { expr: s, arms, .. } => {
+            EMatch { expr: s, arms, astptr, ty } => {
+                if let Some(ptr) = astptr {
+                    let r = ptr.text_range();
+                    out.push((r.start().into(), r.end().into(), "expr-node", ty.to_pretty(80)));
+                }
                 expr(s, out);
                 for a in arms {
                     pat(&a.pat, out);
@@ -628,7 +727,13 @@ fn collect_tast(file: &tast::File) -> Vec<(u32, u32, &'static str, String)> {
                 expr(body, out)
             }
             EGo { expr: x, .. } | EUnary { expr: x, .. } | EProj { tuple: x, .. } | EToDyn { expr: x, .. } => expr(x, out),
-            EField { expr: x, .. } => expr(x, out),
+            EField { expr: x, astptr, ty, .. } => {
+                if let Some(ptr) = astptr {
+                    let r = ptr.text_range();
+                    out.push((r.start().into(), r.end().into(), "expr-node", ty.to_pretty(80)));
+                }
+                expr(x, out)
+            }
             ECall { func, args, .. } => {
                 expr(func, out);
                 args.iter().for_each(|a| expr(a, out))
@@ -646,6 +751,123 @@ fn collect_tast(file: &tast::File) -> Vec<(u32, u32, &'static str, String)> {
             tast::Item::ImplBlock(b) => b.methods.iter().for_each(|m| expr(&m.body, &mut out)),
             _ => {}
         }
+    }
+    out
+}
+
+/// The CST expression a TAST entry of `collect_tast` stands for. `let_value`: `(s, e)` is the range of a
+/// variable binder and the expression is the initialiser of its `let`; otherwise `(s, e)` is the range
+/// of the expression itself. Parentheses are looked through (they have no node of their own after lowering).
+fn expr_node_for(root: &MySyntaxNode, s: u32, e: u32, let_value: bool, path: &str) -> Option<MySyntaxNode> {
+    use cst::cst::CstNode;
+    use parser::syntax::MySyntaxKind;
+    let len: u32 = root.text_range().end().into();
+    if s >= e || e > len {
+        return None;
+    }
+    let range = rowan::TextRange::new(s.into(), e.into());
+    let start = match root.covering_element(range) {
+        rowan::NodeOrToken::Node(n) => n,
+        rowan::NodeOrToken::Token(t) => t.parent()?,
+    };
+    let mut node = if let_value {
+        let pat = start.ancestors().find(|n| n.text_range() == range && n.kind() == MySyntaxKind::PATTERN_VARIABLE)?;
+        let stmt = pat.parent().filter(|p| p.kind() == MySyntaxKind::STMT_LET)?;
+        stmt.children().filter(|c| cst::nodes::Expr::can_cast(c.kind())).last()?
+    } else {
+        start.ancestors().find(|n| n.text_range() == range && cst::nodes::Expr::can_cast(n.kind()))?
+    };
+    let unparen = |mut node: MySyntaxNode| -> Option<MySyntaxNode> {
+        while node.kind() == MySyntaxKind::EXPR_PAREN {
+            node = node.children().find(|c| cst::nodes::Expr::can_cast(c.kind()))?;
+        }
+        Some(node)
+    };
+    node = unparen(node)?;
+    // every step checks the kind of the CST node and the number of its children: a form the two trees
+    // do not share one to one ends the descent
+    for step in path.split('/').filter(|x| !x.is_empty()) {
+        let tag = step.chars().next()?;
+        let (i, n) = step[1..].split_once('.')?;
+        let (i, n): (usize, usize) = (i.parse().ok()?, n.parse().ok()?);
+        let kids: Vec<MySyntaxNode> = match (tag, node.kind()) {
+            ('c', MySyntaxKind::EXPR_CALL) => {
+                let mut ch = node.children();
+                let callee = ch.next()?;
+                let list = ch.next().filter(|c| c.kind() == MySyntaxKind::ARG_LIST)?;
+                if callee.kind() != MySyntaxKind::EXPR_IDENT || ch.next().is_some() {
+                    return None;
+                }
+                let mut v = Vec::new();
+                for a in list.children() {
+                    if a.kind() != MySyntaxKind::ARG || a.children().count() != 1 {
+                        return None;
+                    }
+                    v.push(a.children().next()?);
+                }
+                v
+            }
+            ('t', MySyntaxKind::EXPR_TUPLE) | ('a', MySyntaxKind::EXPR_ARRAY_LITERAL) | ('u', MySyntaxKind::EXPR_PREFIX) => node.children().collect(),
+            ('b', MySyntaxKind::EXPR_BINARY) => {
+                if node.children_with_tokens().filter_map(|x| x.into_token()).any(|t| t.kind() == MySyntaxKind::Dot) {
+                    return None;
+                }
+                node.children().collect()
+            }
+            _ => return None,
+        };
+        if kids.len() != n {
+            return None;
+        }
+        let k = kids.into_iter().nth(i)?;
+        if !cst::nodes::Expr::can_cast(k.kind()) {
+            return None;
+        }
+        node = unparen(k)?;
+    }
+    Some(node)
+}
+
+/// The tokens of an expression node on which a hover is, by the query's own rule (nearest enclosing CST
+/// expression), a hover on that expression itself: its own tokens and the delimiters kept by its list
+/// children (`(`, `,`, `)` of a call, braces of a struct literal / match, bars of a closure), each with
+/// a cursor offset at which the query selects that very token (strictly inside it, or on its first
+/// byte when the token before it is not an identifier that ends there).
+fn head_tokens(node: &MySyntaxNode) -> Vec<(u32, String)> {
+    use parser::syntax::MySyntaxKind as K;
+    let mut out = Vec::new();
+    let mut visit = |tok: parser::syntax::MySyntaxToken| {
+        if matches!(tok.kind(), K::Whitespace | K::Comment | K::Error) {
+            return;
+        }
+        let (s, e): (u32, u32) = (tok.text_range().start().into(), tok.text_range().end().into());
+        let off = if e - s >= 2 && tok.text().is_char_boundary(1) {
+            Some(s + 1)
+        } else {
+            match tok.prev_token() {
+                Some(p) if p.kind() == K::Ident => None,
+                _ => Some(s),
+            }
+        };
+        if let Some(off) = off {
+            out.push((off, tok.text().to_string()));
+        }
+    };
+    for ch in node.children_with_tokens() {
+        match ch {
+            rowan::NodeOrToken::Token(t) => visit(t),
+            rowan::NodeOrToken::Node(n) => {
+                if matches!(n.kind(), K::ARG_LIST | K::STRUCT_LITERAL_FIELD_LIST | K::CLOSURE_PARAM_LIST | K::MATCH_ARM_LIST) {
+                    for t in n.children_with_tokens().filter_map(|x| x.into_token()) {
+                        visit(t);
+                    }
+                }
+            }
+        }
+    }
+    // first, last and one in the middle are enough per expression
+    if out.len() > 3 {
+        out = vec![out[0].clone(), out[out.len() / 2].clone(), out[out.len() - 1].clone()];
     }
     out
 }
@@ -676,13 +898,14 @@ fn run_text(th: usize, ti: usize, t: &Text, dir: &Path, watch: &Watch, sh: &Shar
     let path = t.path.clone().unwrap_or_else(|| dir.join("main.gom"));
     let src = t.src.as_str();
     let mut rng = Rng::new(seed ^ (ti as u64).wrapping_mul(0x9E37));
-    let hover_only = t.kind == "hover-corpus";
+    let hover_only = t.kind == "hover-corpus" || t.kind == "hover-late";
     let poss = if hover_only { Vec::new() } else { positions(src, &mut rng, pos_cap) };
     let li = line_index::LineIndex::new(src);
     let mut tally = Tally::default();
     let mut seen_panic: HashSet<(u8, String)> = HashSet::new();
     let mut tie_pos = String::new();
     let (root, toks) = if tie { cst_tokens(src, &path) } else { (MySyntaxNode::new_root(rowan::GreenNode::new(rowan::SyntaxKind(0), [])), vec![]) };
+    let mut unground: Vec<(u32, u32, String)> = Vec::new();
     let mut completions: Vec<(u8, u32, u32, Vec<(String, String)>)> = Vec::new();
     let mut seen_completion: HashSet<(u8, usize, Vec<(String, String)>)> = HashSet::new();
     let mut record_panic = |q: u8, qn: &str, l: u32, c: u32, p: crash::PanicInfo, tally: &mut Tally| {
@@ -703,9 +926,13 @@ fn run_text(th: usize, ti: usize, t: &Text, dir: &Path, watch: &Watch, sh: &Shar
         let mut hover_offset_none = "?";
         let (mut dot_some, mut cc_some) = ("0", "0");
         match hov {
-            Guarded::Done(Ok(_)) => {
+            Guarded::Done(Ok(h)) => {
                 tally.hover_ok += 1;
                 hover_offset_none = "0";
+                // an inference variable in the answer: fine while the text has errors, never in an accepted program
+                if h.contains("TypeVar(") && unground.len() < 4 {
+                    unground.push((l, c, h));
+                }
             }
             Guarded::Done(Err(e)) => {
                 hover_offset_none = if e == OFFSET_ERR { "1" } else { "0" };
@@ -880,13 +1107,46 @@ fn run_text(th: usize, ti: usize, t: &Text, dir: &Path, watch: &Watch, sh: &Shar
             ));
         }
     }
+    // hover never shows an inference variable at ANY position of a program the compiler accepts (whatever
+    // token the cursor is on: the compiler's types of an accepted program are all ground, C03)
+    if !unground.is_empty() && t.path.is_none() {
+        let accepted = matches!(
+            watch.guarded(th, [ti as u64, 0, 0, 16], || pipeline::compile(&path, src).is_ok()),
+            Guarded::Done(true)
+        );
+        if accepted {
+            for (l, c, h) in &unground {
+                let off = lib_offset(&li, *l, *c).unwrap_or(0);
+                sh.push(format!("HVG\t{}\t{}\t{}\t{}\t{}\t{}", t.id, l, c, esc_line(h), cst_context(src, &path, off), esc_line(src)));
+            }
+        }
+    }
     // hover agreement on programs the compiler accepts
     let mut hov_n = 0;
     if (t.kind == "full" || t.kind == "mutation" || hover_only) && t.path.is_none() {
         if let Guarded::Done(Ok(comp)) = watch.guarded(th, [ti as u64, 0, 0, 10], || pipeline::compile(&path, src)) {
             let mut seen = HashSet::new();
             let mut nodes: Vec<(u32, u32, &'static str, String, String)> = Vec::new();
+            // hover on an EXPRESSION that is not an identifier: (token offset, node kind, TAST type, token text)
+            let mut heads: Vec<(u32, String, String, String)> = Vec::new();
+            let mut seen_head = HashSet::new();
+            let hroot = MySyntaxNode::new_root(parser::parse(&path, src).green_node);
             for (s, e, kind, ty) in collect_tast(&comp.tast) {
+                if kind == "let-value" || kind == "expr-node" {
+                    let (path, ty) = match ty.split_once('\u{1}') {
+                        Some((p, t)) => (p.to_string(), t.to_string()),
+                        None => (String::new(), ty),
+                    };
+                    if let Some(node) = expr_node_for(&hroot, s, e, kind == "let-value", &path) {
+                        let kind = if path.is_empty() { kind } else { "let-sub" };
+                        for (off, text) in head_tokens(&node) {
+                            if seen_head.insert(off) {
+                                heads.push((off, format!("{}:{:?}", kind, node.kind()), ty.clone(), text));
+                            }
+                        }
+                    }
+                    continue;
+                }
                 if (e as usize) > src.len() || !seen.insert((s, e)) {
                     continue;
                 }
@@ -916,6 +1176,33 @@ fn run_text(th: usize, ti: usize, t: &Text, dir: &Path, watch: &Watch, sh: &Shar
                     }
                 }
                 nodes = kept;
+            }
+            // long programs: up to 4 tokens per distinct expression kind + type, compound types first
+            if heads.len() > hov_cap {
+                let mut per: std::collections::HashMap<(String, String), usize> = std::collections::HashMap::new();
+                heads.retain(|h| {
+                    let c = per.entry((h.1.clone(), h.2.clone())).or_default();
+                    *c += 1;
+                    *c <= 4
+                });
+                heads.sort_by_key(|h| !(h.2.contains('[') || h.2.contains('(') || h.2.contains("->")));
+                heads.truncate(hov_cap);
+            }
+            for (off, kind, ty, word) in heads {
+                let (l, c) = line_col_of(src, off);
+                let got = match watch.guarded(th, [ti as u64, l as u64, c as u64, 15], || query::hover_type(&path, src, l, c)) {
+                    Guarded::Done(Ok(s)) => format!("ok:{}", s),
+                    Guarded::Done(Err(e)) => format!("err:{}", e),
+                    Guarded::Panic(p) => format!("panic:{}", crash::site_of(&p)),
+                };
+                hov_n += 1;
+                let agrees = got == format!("ok:{}", ty);
+                sh.push(format!(
+                    "HOV\t{}\t{}\t{}\t{}\t{}\t{}\t{}\t{}\t{}\t{}",
+                    t.id, off, l, c, kind, esc_line(&word), esc_line(&ty), esc_line(&got),
+                    if agrees { String::new() } else { cst_context(src, &path, off) },
+                    if agrees { String::new() } else { esc_line(src) }
+                ));
             }
             for (s, _e, kind, ty, word) in nodes {
                 let word = word.as_str();
@@ -1134,12 +1421,21 @@ pub fn main(args: &util::Args) {
             }
         }
         let _ = k;
+        // late-resolved values whose type is completed by an annotation / a later argument / the result type /
+        // a later branch: hover agreement only (identifiers and initialiser expressions)
+        for (id, src) in late_fixed_programs() {
+            texts.push(Text { id, kind: "hover-late", src, base: 0, path: None });
+        }
         // hover agreement over EVERY pipeline corpus program, whatever its size (no position sweep)
         for d in util::corpus_pipeline_dirs() {
             if let Ok(s) = std::fs::read_to_string(d.join("main.gom")) {
                 texts.push(Text { id: format!("hovercorpus:{}", d.file_name().unwrap().to_string_lossy()), kind: "hover-corpus", src: s, base: 0, path: None });
             }
         }
+    }
+    // development aid: `--only <id-prefix>` runs the texts of one family
+    if let Some(pref) = args.rest.iter().position(|a| a == "--only").and_then(|i| args.rest.get(i + 1)) {
+        texts.retain(|t| t.id.starts_with(pref.as_str()));
     }
     // the long hover-only texts first, so that they do not form the tail of the run
     texts.sort_by_key(|t| if t.kind == "hover-corpus" { (0, usize::MAX - t.src.len()) } else { (1, 0) });
@@ -1185,10 +1481,11 @@ pub fn main(args: &util::Args) {
                     let twin_mode = match t.kind {
                         "full" => 2,
                         "hover-corpus" => if t.src.len() > 4000 { 1 } else { 2 },
+                        "hover-late" => 0,
                         "mutation" => 1,
                         _ => if t.src.trim_end().ends_with('.') || t.src.trim_end().ends_with("::") { 1 } else { 0 },
                     };
-                    run_text(th, i, t, &dir, &watch, &sh, seed, tie && t.kind != "hover-corpus", pos_cap, hov_cap, twin_mode);
+                    run_text(th, i, t, &dir, &watch, &sh, seed, tie && t.kind != "hover-corpus" && t.kind != "hover-late", pos_cap, hov_cap, twin_mode);
                 }
             });
         }
